@@ -180,8 +180,12 @@ def contains_sid(e, sid):
     return any(n.get("sid") == sid for n in subexprs(e))
 
 
-def same_value(a, b):
-    """structural equality of two small expressions: same constant, or same variable / field."""
+def same_value(a, b, fn=None):
+    """structural equality of two small expressions: same constant, or same variable / field.
+    With fn, named temporaries are written out first (`amount` == `static_cast<int>(n)` after
+    `const int amount = static_cast<int>(n);`)."""
+    if fn is not None:
+        a, b = fn.expand_expr(a), fn.expand_expr(b)
     a, b = strip_casts(strip_move(a)), strip_casts(strip_move(b))
     if not isinstance(a, dict) or not isinstance(b, dict):
         return False
